@@ -27,7 +27,7 @@ Definition inst_outcome (rs : list app_response) : option bool :=
 
 Record q18 := {
   m18 : smap;                         (* what storage reads return now *)
-  osver18 : bytes; sysid18 : option bytes;
+  osver18 : bytes; sysid18 : bytes;      (* id of the system app: the first app of the set *)
   clk18 : option ctime;               (* latest clock reading *)
   (* wait-for-reboot report *)
   should18 : bool; fin018 : Z; start18 : option Z; rep18 : bool;
@@ -96,11 +96,11 @@ Definition step18 (q : q18) (a : action) : option q18 :=
             | _ => None
             end
           else if key_is K_TARGET_VERSION op then
-            match op, doc18 q, sysid18 q with
-            | SSetStr _ v, Some d, Some sid =>     (* the version the response offers the system app *)
-                if perf18 q && existsb (fun o => bytes_eqb v (match o with Some x => x | None => s2b "UNKNOWN" end)) (offers d sid)
+            match op, doc18 q with
+            | SSetStr _ v, Some d =>               (* the version the response offers the system app *)
+                if perf18 q && existsb (fun o => bytes_eqb v (match o with Some x => x | None => s2b "UNKNOWN" end)) (offers d (sysid18 q))
                 then Some (set18 q m' (clk18 q) (rep18 q) [] (doc18 q) (planw18 q) (fs18 q) (perf18 q) (fin18 q) (attm18 q) (attw18 q)) else None
-            | _, _, _ => None
+            | _, _ => None
             end
           else match op with
                | SCommit => Some (set18 q m' (clk18 q) (rep18 q) [] (doc18 q) (planw18 q) (fs18 q) (perf18 q)
@@ -138,15 +138,12 @@ Definition step18 (q : q18) (a : action) : option q18 :=
       Some (set18 q (m18 q) (clk18 q) (rep18 q) (todo18 q) (Some d) (planw18 q) (fs18 q) (perf18 q) (fin18 q) (attm18 q) (attw18 q))
   | AInstaller (IPerform plan) _ =>
       (* the plan being installed is the one on record, with its first-seen time *)
-      match get_str (m18 q) K_INSTALL_PLAN_ID with
-      | Some p0 =>
-          if bytes_eqb p0 plan || negb (planw18 q) (* a failed write of the id is the storage's doing *) then
-            let fs := if planw18 q then wallc (clk18 q)
-                      else match get_time (m18 q) K_FIRST_SEEN with Some x => x | None => wallc (clk18 q) end in
-            Some (set18 q (m18 q) (clk18 q) (rep18 q) (todo18 q) (doc18 q) (planw18 q) (Some fs) true 0%N (attm18 q) (attw18 q))
-          else None
-      | None => Some (set18 q (m18 q) (clk18 q) (rep18 q) (todo18 q) (doc18 q) (planw18 q) (Some (wallc (clk18 q))) true 0%N (attm18 q) (attw18 q))
-      end
+      (* either the id on record is this plan's, or it has just been (re)written - a refused write is the storage's doing *)
+      if match get_str (m18 q) K_INSTALL_PLAN_ID with Some p0 => bytes_eqb p0 plan | None => false end || planw18 q then
+        let fs := if planw18 q then wallc (clk18 q)
+                  else match get_time (m18 q) K_FIRST_SEEN with Some x => x | None => wallc (clk18 q) end in
+        Some (set18 q (m18 q) (clk18 q) (rep18 q) (todo18 q) (doc18 q) (planw18 q) (Some fs) true 0%N (attm18 q) (attw18 q))
+      else None
   | APolicy (QRebootNeeded _) _ =>
       (* the finish time has been written and committed before the reboot is even considered (unless the storage refused) *)
       if (fin18 q =? 2)%N || (fin18 q =? 3)%N then Some q else None
@@ -167,7 +164,7 @@ Definition step18 (q : q18) (a : action) : option q18 :=
 
 Definition init18 (cfg : config) (apps : list app) (st : storage) : q18 :=
   let m := pend st in
-  {| m18 := m; osver18 := os_version cfg; sysid18 := match apps with a :: _ => Some (a_id a) | [] => None end; clk18 := None;
+  {| m18 := m; osver18 := os_version cfg; sysid18 := match apps with a :: _ => a_id a | [] => [] end; clk18 := None;
      should18 := match get_time m K_FINISH_TIME, get_str m K_TARGET_VERSION with
                  | Some _, Some v => bytes_eqb v (os_version cfg) | _, _ => false end;
      fin018 := match get_time m K_FINISH_TIME with Some f => f | None => 0 end;
